@@ -65,7 +65,7 @@ def rpu_random(r):
 def forgeable(kind, seq):
     if kind == "P":
         return 0 <= seq <= SEQ_MAX + 0 and seq < (1 << 40)
-    return 0 <= seq < SEQ_MAX - 1
+    return 0 <= seq < SEQ_MAX
 
 
 def rpd_line(wcfg, b12, con, msgs):
@@ -106,8 +106,8 @@ def rpd_random(r):
         s = near(r, last, w)
         if kind == "P":
             s = min(s, SEQ_MAX)
-        elif s >= SEQ_MAX - 1:
-            s = SEQ_MAX - 2 - r.randrange(0, 3)
+        elif s >= SEQ_MAX:
+            s = SEQ_MAX - 1 - r.randrange(0, 3)      # the highest number a sender can use
         tok = "%s%x" % (kind, s)
         msgs.append(tok)
         if kind in GEN_KINDS:
